@@ -383,6 +383,8 @@ class CaseGen:
             fx += "d"
         if name == "xgetbv":
             fx += "c"    # ecx selects the XCR; anything but 0/1 is #GP
+        if name in ("bsf", "bsr"):
+            fx += "z"    # destination undefined when the source is 0 (ZF=1): keeping the old value is not a defined result
         if probe:
             fx += "pM"
         if name in ("insertps", "vinsertps") and any(op[0] == "I" and (op[1] & 0xC0) for op in ops):
